@@ -15,7 +15,7 @@
 """ Dynamical changing of lru_cache maxsize. """
 from functools import lru_cache
 
-from . import _algebra, _merging, _contractions, _einsum
+from . import _algebra, _merging, _contractions, _einsum, linalg
 
 __all__ = ['clear_cache', 'get_cache_info', 'set_cache_maxsize']
 
@@ -40,6 +40,10 @@ def set_cache_maxsize(maxsize=0):
     _merging._meta_fuse_hard = lru_cache(maxsize)(_merging._meta_fuse_hard.__wrapped__)
     _merging._meta_unfuse_hard = lru_cache(maxsize)(_merging._meta_unfuse_hard.__wrapped__)
     _algebra._meta_addition = lru_cache(maxsize)(_algebra._meta_addition.__wrapped__)
+    # modules that imported a cached function by name have to see the new object
+    _contractions._meta_unmerge_matrix = _merging._meta_unmerge_matrix
+    _contractions._meta_fuse_hard = _merging._meta_fuse_hard
+    linalg._meta_unmerge_matrix = _merging._meta_unmerge_matrix
 
 
 def clear_cache():
